@@ -1,7 +1,7 @@
 (* C06 - recompression never changes the decoded content. Property theorems only. *)
 From Coq Require Import String.
 From Coq Require Import List NArith ZArith Bool.
-From Verif Require Import GoStr Sx Recompress SpecC06 Monitors C06Proofs C06AeProofs.
+From Verif Require Import GoStr Sx Range Recompress SpecC06 Monitors C06Proofs C06AeProofs.
 Import ListNotations.
 
 (* For EVERY Accept-Encoding, Content-Encoding and Content-Type string the decision keeps
@@ -36,18 +36,29 @@ Example C06_example :
   get_recompression (bytes "gzip") (bytes "br") (bytes "text/html") = (CNone, CNone).
 Proof. split; vm_compute; reflexivity. Qed.
 
-(* With the cache in the loop: for EVERY sequence of clients, whatever each one's Accept-Encoding, every answer -
-   fetched from the origin or taken from the entry an earlier client's request filled - carries an encoding that is
-   the origin's own, none, or one whose token occurs in THAT client's Accept-Encoding. (The cache keeps one entry per
-   Accept-Encoding value; the correspondence run checks exactly this bookkeeping against the real server and cache.) *)
+(* With the cache in the loop: for EVERY sequence of clients, whatever each one's Accept-Encoding and whether or not it
+   asks for a byte range, every answer - fetched from the origin or taken from the entry an earlier client's request
+   filled - carries an encoding that is the origin's own, none, or one whose token occurs in THAT client's
+   Accept-Encoding; a part cut out of a recompressed entry is a part of an entry that this very Accept-Encoding value is
+   entitled to. (The cache keeps one entry per Accept-Encoding value; the correspondence run checks exactly this
+   bookkeeping against the real server, cache and codecs.) *)
 Theorem C06_cache_never_hands_out_an_unlisted_encoding :
-  forall recomp ce ct cc content aes,
-    Forall2 (fun ae o => ae_allowed (ae_value ae) ce (obs_delivered o)) aes (run_ae recomp ce ct cc content aes []).
+  forall recomp ce ct cc content aes rngs,
+    Forall2 (fun ae o => exists seen, seen_ok ce seen /\ obs_ok ce ae seen o) aes (run_ae recomp ce ct cc content aes rngs []).
 Proof. intros. apply run_ae_allowed. constructor. Qed.
 Print Assumptions C06_cache_never_hands_out_an_unlisted_encoding.
 
 Example C06_cache_example :
   map obs_delivered (run_ae true [] (bytes "text/html") (bytes "max-age=600") (bytes "x")
-                            [bytes "gzip, deflate, br"; bytes "gzip"; bytes "gzip, deflate, br"; bytes "-"] [])
+                            [bytes "gzip, deflate, br"; bytes "gzip"; bytes "gzip, deflate, br"; bytes "-"] [] [])
   = [bytes "br"; bytes "gzip"; bytes "br"; []].
+Proof. vm_compute. reflexivity. Qed.
+
+(* a client that asks for bytes 10-19 while its body is recompressed gets the complete response on the fill (fix F41)
+   and a part of the stored gzip bytes afterwards; one whose body is stored as sent gets exactly the ten bytes *)
+Example C06_range_example :
+  map (fun o => (sx_int (sx_nth 0 o), sx_str (sx_nth 2 o)))
+      (run_ae true [] (bytes "text/plain") (bytes "max-age=600") (bytes "0123456789abcdefghijklmnop")
+              [bytes "gzip"; bytes "gzip"; bytes "-"] [bytes "bytes=10-19"; bytes "bytes=10-19"; bytes "bytes=10-19"] [])
+  = [(200%Z, bytes "0123456789abcdefghijklmnop"); (0%Z, []); (206%Z, bytes "abcdefghij")].
 Proof. vm_compute. reflexivity. Qed.
